@@ -2,6 +2,7 @@
 from __future__ import annotations
 
 import ast
+from fractions import Fraction
 
 from ..dataflow import flow_of
 from ..model import AnalysisError, FuncInfo, Program, body_walk, calls_in_body, dotted, norm, parent
@@ -242,6 +243,7 @@ def run(prog: Program, res: Result, tier: str) -> None:
     # ---- R4 label span ----------------------------------------------------------------------------------------
     _label_span(prog, res)
     _read_block_selection(prog, res)
+    _inf_frequency_label(prog, res)
 
     # ---- R5 unit lints --------------------------------------------------------------------------------------------
     n5 = 0
@@ -478,6 +480,70 @@ def _read_block_selection(prog: Program, res: Result) -> None:
         (res.ok if okl else res.bad)("R4", f, c, "the first row is labelled with the centre of the channel it was copied from (header.fch1 + first row * foff)"
                                      if okl else f"the block's fch1 is `{norm(lab) if lab is not None else '?'}`, not header.fch1 + <first row>*foff: a requested "
                                      "frequency off the channel grid labels every row wrongly", key=key)
+
+
+def _inf_frequency_label(prog: Program, res: Result) -> None:
+    """The PRESTO .inf side-car stores the centre of the LOWEST channel; make_inf computes it from the header and from_inffile
+    turns it back into fch1.  For either sign of foff the composition must be the identity on fch1 (F49)."""
+    import copy
+    mk = prog.func(HEADER, "Header.make_inf")
+    rd = prog.func(HEADER, "Header.from_inffile")
+    w = [s_ for s_ in body_walk(mk.node) if isinstance(s_, ast.Assign) and norm(s_.targets[0]) in ("inf_dict['freq_low']", 'inf_dict["freq_low"]')]
+    ups = [d for c, d, k2, _ in _header_updates(rd) if d and "fch1" in d]
+    r = None
+    for s_ in body_walk(rd.node):
+        if isinstance(s_, ast.Assign) and isinstance(s_.value, ast.Dict):
+            for k_, v_ in zip(s_.value.keys, s_.value.values):
+                if isinstance(k_, ast.Constant) and k_.value == "fch1":
+                    r = v_
+    key = "inf:freq-roundtrip"
+    if len(w) != 1 or r is None:
+        res.bad("R4", mk, mk.node, "cannot find the freq_low written by make_inf / the fch1 rebuilt by from_inffile", construct="freq_low", key=key)
+        return
+    fch1, foff, n = Poly.sym("fch1"), Poly.sym("foff"), Poly.sym("nchans")
+    ftop = fch1 - foff.scale(Fraction(1, 2))
+    fbottom = ftop + foff * n
+    bad = []
+    for sign in (+1, -1):
+        def subst(e: ast.AST, low: Poly | None) -> Poly:
+            class T(ast.NodeTransformer):
+                def visit_Subscript(self, node):  # noqa: N802
+                    t_ = norm(node)
+                    alias = {"header['foff']": "__foff", "header['nchans']": "__n", "header['freq_low']": "__low"}
+                    return ast.copy_location(ast.Name(id=alias[t_], ctx=ast.Load()), node) if t_ in alias else self.generic_visit(node)
+
+                def visit_Call(self, node):  # noqa: N802
+                    self.generic_visit(node)
+                    d_ = dotted(node.func)
+                    if d_ == "abs" and len(node.args) == 1:
+                        return node.args[0] if sign > 0 else ast.UnaryOp(op=ast.USub(), operand=node.args[0])
+                    if d_ == "min" and len(node.args) == 2:
+                        a_, b_ = PolyEnv(names).poly(node.args[0]), PolyEnv(names).poly(node.args[1])
+                        diff = a_ - b_          # decide the smaller one from the sign of foff (nchans >= 1)
+                        if diff == foff or diff == foff * n or diff == -(foff * n) or diff == -foff:
+                            pos = diff == foff or diff == foff * n
+                            smaller_is_b = pos if sign > 0 else not pos
+                            return node.args[1] if smaller_is_b else node.args[0]
+                    return node
+            return PolyEnv(names).poly(T().visit(copy.deepcopy(e)))
+        names = {"self.ftop": ftop, "self.fbottom": fbottom, "self.foff": foff, "self.fch1": fch1, "self.nchans": n,
+                 "__foff": foff, "__n": n}
+        try:
+            low = subst(w[0].value, None)
+            names2 = dict(names)
+            names2["__low"] = low
+            names = names2
+            back = subst(r, low)
+        except Exception as exc:  # noqa: BLE001
+            bad.append(f"foff {'>' if sign > 0 else '<'} 0: not interpretable ({exc})")
+            continue
+        want_low = fch1 if sign > 0 else fch1 + foff * (n - Poly.const(1))
+        if low != want_low:
+            bad.append(f"foff {'>' if sign > 0 else '<'} 0: make_inf writes {low.canon()} as the lowest channel's centre, which is {want_low.canon()}")
+        elif back != fch1:
+            bad.append(f"foff {'>' if sign > 0 else '<'} 0: from_inffile rebuilds fch1 = {back.canon()}")
+    (res.ok if not bad else res.bad)("R4", mk, w[0], "make_inf stores the centre of the lowest channel and from_inffile turns it back into fch1, for either sign of foff"
+                                     if not bad else "; ".join(bad), construct="freq_low", key=key)
 
 
 def _label_span(prog: Program, res: Result) -> None:
@@ -735,6 +801,10 @@ def _scaling_and_dm(prog: Program, res: Result) -> None:
 
 B = "sigpyproc/base.py"
 MUTANTS = [
+    {"id": "c08-revert-F49-writer", "file": "sigpyproc/header.py", "expect": "C08.R4",
+     "old": "        inf_dict[\"freq_low\"] = min(self.ftop, self.fbottom) + 0.5 * abs(self.foff)\n", "new": "        inf_dict[\"freq_low\"] = self.fbottom + 0.5 * abs(self.foff)\n"},
+    {"id": "c08-revert-F49-reader", "file": "sigpyproc/header.py", "expect": "C08.R4",
+     "old": "            - min(0, header[\"foff\"]) * (header[\"nchans\"] - 1),\n", "new": "            + header[\"foff\"] * header[\"nchans\"],\n"},
     {"id": "c08-revert-F40-downsample", "file": "sigpyproc/block.py", "expect": "C08.R6",
      "old": "        return FilterbankBlock(new_ar, self.header.new_header(changes), self.dm)\n", "new": "        return FilterbankBlock(new_ar, self.header.new_header(changes))\n"},
     {"id": "c08-revert-F40-tofile", "file": "sigpyproc/block.py", "expect": "C08.R6",
